@@ -238,6 +238,10 @@ def directed_cases():
             ops = [{"op": "BuildOther"}] + ops[:3] + [{"op": "BuildOther"}] + ops[3:]
         cases.append({"id": 10_000 + i, "init": init, "ops": ops, "jobs": [None, 1, 4][i % 3]})
         cases.append({"id": 10_100 + i, "init": init, "ops": ops, "jobs": [None, 1, 4][i % 3], "linked": ["e", "s/c"]})
+        # two edits of one file a quarter of a second apart - the same size, the same inode, the same whole second - with a
+        # build (warm cache) after each
+        twice = [{"op": "Edit", "p": p, "c": "c3"}, real, {"op": "Edit", "p": p, "c": "c1"}, real, {"op": "Edit", "p": p, "c": "c3"}, real]
+        cases.append({"id": 10_200 + i, "init": init, "ops": twice, "jobs": [None, 1, 4][i % 3], "linked": ["e"] if i % 2 else []})
     return cases
 
 
